@@ -301,7 +301,7 @@ class Array:
             m.append("content=%s" % c)
         m.append("lock=%s" % (self.cpaths()[0] + ".lock"))
         # content copies on data disks must win over the data prefix: put them first
-        m.sort(key=lambda s: 0 if s.startswith(("content=", "lock=")) else 1)
+        m.sort(key=lambda s: 0 if s.startswith("lock=") else (1 if s.startswith("content=") else 2))
         return ";".join(m)
 
     # ---- content
